@@ -13,8 +13,11 @@
   * `Writable P L`- the library consists of entries, @strings, @preambles, explicit and free-text
                     comments (no failed block); entry keys pairwise distinct, @string keys pairwise
                     distinct, field keys distinct within an entry; entry types are lower-case `\w` words
-                    other than comment/preamble/string...; keys are `SimpleText` (no delimiter, `@`,
-                    backslash) and stripped; every entry field value is `EncVal` (the enclosed text `{v}`,
+                    other than comment/preamble/string...; keys are `KeyOK` (Lemmas/KeyOK.lean: the tokens of the
+                    key are text / newline tokens only - every other delimiter in it is escaped by a
+                    backslash, no `@` in it starts a block - and it does not end in a backslash; `KeyText`
+                    = additionally no newline, `SimpleText` = no delimiter, `@`, backslash at all) and
+                    stripped; every entry field value is `EncVal` (the enclosed text `{v}`,
                     followed by `,` or a newline, lexes to a `Value` of the grammar - the content `v`
                     itself may be unbalanced: `A} # {B`, `a}{b`); every @string value is `EncBal` (the
                     enclosed text `{v}` lexes to brace-balanced tokens); every preamble / explicit comment,
@@ -25,11 +28,16 @@
                     an entry's `removed_enclosing` metadata is absent or a dict.
   Proof: Lemmas/PrintParseLex (text → tokens of a grammar derivation, block by block),
   PrintParseDoc (the derivation is well formed, C02 `split_correct` gives the blocks),
-  PrintParsePipe / PrintParseMain (write stack, parse stack on enclosed values), PrintParseFix (fixpoint).
+  PrintParsePipe / PrintParseMain (write stack, parse stack on enclosed values), PrintParseFix (fixpoint);
+  ParsedInv / ParsedWritable (what every parsed library satisfies); for the grammar level TrimLex
+  (stripping white space off a token sequence), GrammarShapes (the shapes of a stripped value), GrammarPipe
+  (resolution and enclosing removal on source values), GrammarType, GrammarDoc (from a derivation to `SideOK`).
 -/
 import BibVerif.Lemmas.PrintParseFix
 import BibVerif.Lemmas.PrintParseClean
 import BibVerif.Lemmas.ParsedWritable
+import BibVerif.Lemmas.GrammarDoc
+import BibVerif.Lemmas.GrammarExample
 namespace Bib.C05
 open Bib Bib.Pipeline Bib.PrintParse Bib.Writer
 
@@ -51,7 +59,7 @@ def fixpoint_full : Prop :=
 
 /-- **parsed ⇒ writable**: a library returned by `parse_string` whose blocks pass the content side
 conditions `SideOK` (Lemmas/ParsedWritable.lean: no failed block; entry types are lower-case `\w` words;
-keys are `SimpleText`; every entry field value is `ValueOK` = the tokens of the enclosed text `{v}` are a
+keys are `KeyOK`; every entry field value is `ValueOK` = the tokens of the enclosed text `{v}` are a
 `Value` of the grammar and `v` does not end in a backslash; every @string value is `StrValOK` = the
 tokens of `{v}` are brace-balanced, no trailing backslash; every preamble / explicit comment is `TextOK`
 = its own tokens are brace-balanced and it does not end in a backslash; free-text comments contain no
@@ -70,30 +78,44 @@ def content_preserved_full : Prop :=
 
 /-! The property's "well-formed document" at the level of the dialect grammar (DESIGN §6 C05, `WF₅`):
 a derivation with pairwise distinct keys, no stripped key / value / explicit comment ending in a
-backslash, entry types that are `\w` words after lower-casing.  `SideOK` is narrower (keys without
-backslash / `@` / newline, values and comments without trailing backslash), and it is a condition on
-the parsed library rather than on the derivation; the statement for all of `WF₅` is kept here and is
-NOT proved. -/
+backslash, entry types that are `\w` words after lower-casing.
 
+As DESIGN states it, this is FALSE of model and code alike, for two reasons (both in the harness corpus):
+  * the grammar lets an @string value be any `Bal`, e.g. `@string{s = {a}, {b}}` (a comma at brace depth
+    0).  `@a{k, t = s}` then resolves `t` to `{a}, {b}`, one layer is stripped (`a}, {b`), the writer emits
+    `t = {a}, {b}` - and the re-parse reads `t = {a}` followed by junk: the entry comes back as a
+    `ParsingFailedBlock`.  So @string values have to be `Value`s of the grammar (as in BibTeX), like
+    field values.
+  * "no stripped value ending in a backslash" is not enough: the stripped source value `"a"b\"` ends in
+    a quote, its content `a"b\` (one enclosing layer removed) ends in a backslash; the writer emits
+    `{a"b\}` whose closing brace is escaped, and the block does not parse back.  It is the CONTENT of
+    a value that must not end in a backslash (`srcContentNoBS`).
+`Doc.WF5` below is the statement with these two corrections; `content_preserved_grammar_full` is proved
+for it (`content_preserved_grammar`). -/
+
+/-- the stripped text of a source piece does not end in a backslash -/
 def srcNoBS (P : PyChars) (ts : List Tok) : Prop := Reparse.endBS false (strip P (flatten ts)) = false
+
+/-- the content of a source value (stripped, one enclosing layer removed) does not end in a backslash -/
+def srcContentNoBS (P : PyChars) (ts : List Tok) : Prop :=
+  Reparse.endBS false (Enclosing.stripEnclosing P (strip P (flatten ts))).1 = false
 
 def BlockSrc.WF5 (P : PyChars) : BlockSrc → Prop
   | .comment _ body => srcNoBS P body
   | .preamble _ _ => True
-  | .string _ key val => srcNoBS P key ∧ srcNoBS P val
+  | .string _ key val => srcNoBS P key ∧ IsValue val ∧ srcContentNoBS P val
   | .entry lit key fields _ =>
     (∀ c ∈ (classify P lit).2, P.isWord c = true) ∧ srcNoBS P key ∧
-    ∀ f ∈ fields, srcNoBS P f.key ∧ srcNoBS P f.val
+    ∀ f ∈ fields, srcNoBS P f.key ∧ srcContentNoBS P f.val
 
+/-- `d.WF`: `d` is a derivation of the grammar (C02); field keys distinct within an entry; the side
+conditions on each block; entry keys and @string keys pairwise distinct -/
 def Doc.WF5 (P : PyChars) (d : Doc) : Prop :=
   d.WF P ∧ d.DistinctFields P ∧ (∀ bj ∈ d.items, BlockSrc.WF5 P bj.1) ∧
-  (d.items.filterMap fun bj => match bj.1 with
-    | .entry _ key _ _ => some (strip P (flatten key)) | _ => none).Nodup ∧
-  (d.items.filterMap fun bj => match bj.1 with
-    | .string _ key _ => some (strip P (flatten key)) | _ => none).Nodup
+  (srcEntryKeys P d.items).Nodup ∧ (srcStringKeys P d.items).Nodup
 
 def content_preserved_grammar_full : Prop :=
-  ∀ (P : PyChars) (F : BibtexFormat) (d : Doc) (s : Str), PrintOK P → FormatOK F → Doc.WF5 P d →
+  ∀ (P : PyChars) (F : BibtexFormat) (d : Doc) (s : Str), PrintOK P → LowerOK P → FormatOK F → Doc.WF5 P d →
     Canon P false d.toks → '\n' :: s = flatten d.toks →
     ∃ rt, roundTrip P F s = .ok rt ∧ rt.lib2.map contentOf = rt.lib1.map contentOf ∧ rt.text2 = rt.text1
 
@@ -168,6 +190,36 @@ theorem content_preserved : content_preserved_full := by
   intro P F s L hP hF hs hside
   exact roundtrip hP F hF s L hs (parsed_writable P s L hP hs hside)
 
+/-- `Doc.WF5` is the hypothesis `Doc.OK5` of the lemmas (Lemmas/GrammarDoc.lean), spelled out -/
+theorem ok5_of_wf5 (d : Doc) (h : Doc.WF5 P d) : Doc.OK5 P d := by
+  refine ⟨h.1, h.2.1, fun bj hbj => ?_, h.2.2.2.1, h.2.2.2.2⟩
+  have := h.2.2.1 bj hbj
+  cases hb : bj.1 <;> rw [hb] at this <;> exact this
+
+/-- the intermediate fact: the parse of a grammar document passes the content side conditions -/
+theorem parsed_grammar_sideOK (hP : PrintOK P) (hL : LowerOK P) (d : Doc) (hd : Doc.WF5 P d) (hc : Canon P false d.toks)
+    (s : Str) (hs : '\n' :: s = flatten d.toks) :
+    ∃ L, parseDefault P s = .ok L ∧ (∀ b ∈ L, SideOK P b) ∧ Writable P L := by
+  obtain ⟨L, hp, hside⟩ := parse_grammar hP hL d (ok5_of_wf5 d hd) hc s hs
+  exact ⟨L, hp, hside, parsed_writable P s L hP hp hside⟩
+
+/-- **content_preserved_grammar**: the round trip for a grammar document.  `d` is a derivation of the
+dialect grammar with the side conditions `Doc.WF5`: `d.WF`, field keys distinct within an entry, entry
+keys and @string keys pairwise distinct; entry types are `\w` words (after lower-casing); no stripped
+key or explicit comment and no content of a value (stripped, one enclosing layer removed) ends in a
+backslash; @string values are `Value`s.  `Canon` says its tokens are what the lexer produces, and `s` is
+the text it spells.  `LowerOK` are three facts about `str.lower` (checked over all code points).  Then
+`parse_string s` is a library passing `SideOK` (`parse_grammar`: C02 `split_correct`, re-lexing of the
+stripped pieces, the three value shapes `{w}` / `"w"` / bare-or-concatenated, resolution of @string
+references; that the type is a fixed point of `lower` not starting with a keyword and that a preamble
+does not end in a backslash follow from canonicity), hence parse → write → parse → write succeeds with
+equal contents and equal texts. -/
+theorem content_preserved_grammar : content_preserved_grammar_full := by
+  intro P F d s hP hL hF hd hc hs
+  obtain ⟨L, hp, hside⟩ := parse_grammar hP hL d (ok5_of_wf5 d hd) hc s hs
+  obtain ⟨rt, h1, _, h3, h4⟩ := content_preserved P F s L hP hF hp hside
+  exact ⟨rt, h1, h3, h4⟩
+
 /-- A sufficient, purely lexical condition for a value to be `CleanVal`: its own tokens are
 brace-balanced and it does not end in a backslash (`TextOK`). -/
 theorem cleanVal_of_textOK (hP : PrintOK P) (v : Str) (h : TextOK P v) : CleanVal P v :=
@@ -206,9 +258,11 @@ def exF3 : Field := ⟨"t".toList, .str "w".toList, 0⟩
 def exF4 : Field := ⟨"note".toList, .str "A} # {B".toList, 0⟩
 /-- content of the source value `{a}{b}` -/
 def exF5 : Field := ⟨"adj".toList, .str "a}{b".toList, 0⟩
+/-- a field key with an escaped delimiter and a non-block-start `@` (`KeyText`, not `SimpleText`) -/
+def exF6 : Field := ⟨"a\\=b@c".toList, .str "v".toList, 0⟩
 
 def exE1 : Entry :=
-  { ty := "article".toList, key := "k1".toList, fields := [exF1, exF2, exF4, exF5], line := 0, raw := [] }
+  { ty := "article".toList, key := "k1".toList, fields := [exF1, exF2, exF4, exF5, exF6], line := 0, raw := [] }
 
 def exE2 : Entry :=
   { ty := "book".toList, key := "".toList,
@@ -227,6 +281,27 @@ def exLib : List Block :=
 theorem simple_of_decide (t : Str) (h : t.all simpleChar = true) : SimpleText t :=
   fun c hc => List.all_eq_true.mp h c hc
 
+/-- `KeyText ⇒ KeyOK`: a key that is one text token (every delimiter escaped, no newline, no block
+start, no trailing backslash) is a key in the general sense (tokens are text / newline only) -/
+theorem keyOK_of_keyText' (k : Str) (h : KeyText P k) : KeyOK P k := keyOK_of_keyText k h
+
+/-- `SimpleText ⇒ KeyText`: everything proved for keys without delimiter / `@` / backslash remains -/
+theorem keyText_of_simpleText (k : Str) (h : SimpleText k) : KeyText P k := keyText_of_simple k h
+
+/-- `KeyText` can be decided by one scan (`keyTextB`) -/
+theorem keyText_of_scan (k : Str) (h : keyTextB P k = true) : KeyText P k := keyText_of_keyTextB k h
+
+/-- keys may span lines -/
+theorem keyOK_newline (hP : PrintOK P) (a b : Str) (ha : KeyOK P a) (hb : KeyOK P b) : KeyOK P (a ++ '\n' :: b) :=
+  keyOK_nl hP.nlWord a b ha hb
+
+theorem kt (t : Str) (h : keyTextB asciiChars t = true) : KeyOK asciiChars t :=
+  keyOK_of_keyText t (keyText_of_keyTextB t h)
+
+/-- a key with a newline and an escaped comma in it -/
+example : KeyOK asciiChars "k\\,1\nx".toList :=
+  keyOK_newline printOK_ascii "k\\,1".toList "x".toList (kt _ (by decide)) (kt _ (by decide))
+
 theorem exLib_writable : Writable asciiChars exLib := by
   have c1 : CleanVal asciiChars "x{y{z}}".toList := cleanVal_nested
   have c2 : CleanVal asciiChars "2020".toList := cleanVal_simple _ (simple_of_decide _ (by decide))
@@ -237,27 +312,50 @@ theorem exLib_writable : Writable asciiChars exLib := by
   simp only [exLib, List.mem_cons, List.not_mem_nil, or_false] at hb
   rcases hb with rfl | rfl | rfl | rfl | rfl | rfl | rfl
   · refine ⟨by decide, by decide, by decide, by decide, by decide, by decide,
-      simple_of_decide _ (by decide), by decide, ?_, by decide, Or.inl rfl⟩
+      kt _ (by decide), by decide, ?_, by decide, Or.inl rfl⟩
     intro f hf
-    change f ∈ [exF1, exF2, exF4, exF5] at hf
+    change f ∈ [exF1, exF2, exF4, exF5, exF6] at hf
     simp only [List.mem_cons, List.not_mem_nil, or_false] at hf
-    rcases hf with rfl | rfl | rfl | rfl
-    · exact ⟨simple_of_decide _ (by decide), by decide, _, rfl, encVal_of_clean c1⟩
-    · exact ⟨simple_of_decide _ (by decide), by decide, _, rfl, encVal_of_clean c2⟩
-    · exact ⟨simple_of_decide _ (by decide), by decide, _, rfl, encVal_concat⟩
-    · exact ⟨simple_of_decide _ (by decide), by decide, _, rfl, encVal_adj⟩
-  · exact ⟨simple_of_decide _ (by decide), by decide, _, rfl, encBal_of_clean c4⟩
-  · exact ⟨simple_of_decide _ (by decide), by decide, _, rfl, encBal_adj⟩
+    rcases hf with rfl | rfl | rfl | rfl | rfl
+    · exact ⟨kt _ (by decide), by decide, _, rfl, encVal_of_clean c1⟩
+    · exact ⟨kt _ (by decide), by decide, _, rfl, encVal_of_clean c2⟩
+    · exact ⟨kt _ (by decide), by decide, _, rfl, encVal_concat⟩
+    · exact ⟨kt _ (by decide), by decide, _, rfl, encVal_adj⟩
+    · exact ⟨kt _ (by decide), by decide, _, rfl, encVal_of_clean c4⟩
+  · exact ⟨kt _ (by decide), by decide, _, rfl, encBal_of_clean c4⟩
+  · exact ⟨kt _ (by decide), by decide, _, rfl, encBal_adj⟩
   · exact ⟨by decide, by decide, by decide⟩
   · refine ⟨by decide, by decide, by decide, by decide, by decide, by decide,
-      simple_of_decide _ (by decide), by decide, ?_, by decide, Or.inr ⟨_, rfl⟩⟩
+      kt _ (by decide), by decide, ?_, by decide, Or.inr ⟨_, rfl⟩⟩
     intro f hf
     change f ∈ [exF3] at hf
     simp only [List.mem_cons, List.not_mem_nil, or_false] at hf
     subst hf
-    exact ⟨simple_of_decide _ (by decide), by decide, _, rfl, encVal_of_clean c3⟩
+    exact ⟨kt _ (by decide), by decide, _, rfl, encVal_of_clean c3⟩
   · exact c1
   · exact ⟨c2, by decide⟩
+
+/-- keys that span lines (`KeyOK`, not `KeyText`): entry key `k NL k`, field key `t NL u` -/
+def exE3 : Entry :=
+  { ty := "a".toList, key := "k\nk".toList, fields := [⟨"t\nu".toList, .str "v".toList, 0⟩], line := 0, raw := [] }
+
+def exLibNL : List Block := [.live (.entry exE3)]
+
+theorem exLibNL_writable : Writable asciiChars exLibNL := by
+  have k1 : KeyOK asciiChars "k\nk".toList :=
+    keyOK_newline printOK_ascii "k".toList "k".toList (kt _ (by decide)) (kt _ (by decide))
+  have k2 : KeyOK asciiChars "t\nu".toList :=
+    keyOK_newline printOK_ascii "t".toList "u".toList (kt _ (by decide)) (kt _ (by decide))
+  refine ⟨?_, by decide, by decide, by simp [exLibNL, NoAdjImpl]⟩
+  intro b hb
+  simp only [exLibNL, List.mem_cons, List.not_mem_nil, or_false] at hb
+  subst hb
+  refine ⟨by decide, by decide, by decide, by decide, by decide, by decide, k1, by decide, ?_, by decide, Or.inl rfl⟩
+  intro f hf
+  change f ∈ [(⟨"t\nu".toList, .str "v".toList, 0⟩ : Field)] at hf
+  simp only [List.mem_cons, List.not_mem_nil, or_false] at hf
+  subst hf
+  exact ⟨k2, by decide, _, rfl, encVal_of_clean (cleanVal_simple _ (simple_of_decide _ (by decide)))⟩
 
 def exFormat : BibtexFormat :=
   { indent := "  ".toList, valueColumn := .auto, blockSeparator := "\n \n".toList, trailingComma := true }
@@ -265,11 +363,16 @@ def exFormat : BibtexFormat :=
 example : PrintOK asciiChars ∧ FormatOK exFormat ∧ Writable asciiChars exLib :=
   ⟨printOK_ascii, ⟨by decide, by decide⟩, exLib_writable⟩
 
+/-- `print_parse` / `fixpoint` apply to the library with multi-line keys -/
+example : ∃ t L', writeDefault asciiChars exFormat exLibNL = .ok t ∧ parseDefault asciiChars t = .ok L' ∧
+    L'.map contentOf = exLibNL.map contentOf :=
+  print_parse asciiChars exFormat exLibNL printOK_ascii ⟨by decide, by decide⟩ exLibNL_writable
+
 /-- the text the model's write stack produces for the example (kernel evaluation): `auto` column,
 trailing commas, two-space indent, separator `"\n \n"` -/
 example : writeDefault asciiChars exFormat exLib = .ok
     ("@article{k1,\n  title                = {x{y{z}}},\n  averyveryverylongkey = {2020},\n" ++
-     "  note                 = {A} # {B},\n  adj                  = {a}{b},\n}\n\n \n" ++
+     "  note                 = {A} # {B},\n  adj                  = {a}{b},\n  a\\=b@c               = {v},\n}\n\n \n" ++
      "@string{s = {v}}\n\n \n@string{s2 = {a}{b}}\n\n \nmail a@b.org, with = and {\n\n \n@book{,\n  t                    = {w},\n}\n\n \n" ++
      "@preamble{x{y{z}}}\n\n \n@comment{2020}\n").toList := by
   decide +kernel
@@ -288,25 +391,26 @@ theorem exLib_sideOK : ∀ b ∈ exLib, SideOK asciiChars b := by
   intro b hb
   simp only [exLib, List.mem_cons, List.not_mem_nil, or_false] at hb
   rcases hb with rfl | rfl | rfl | rfl | rfl | rfl | rfl
-  · refine ⟨by decide, by decide, by decide, by decide, by decide, simple_of_decide _ (by decide), ?_⟩
+  · refine ⟨by decide, by decide, by decide, by decide, by decide, kt _ (by decide), ?_⟩
     intro f hf
-    change f ∈ [exF1, exF2, exF4, exF5] at hf
+    change f ∈ [exF1, exF2, exF4, exF5, exF6] at hf
     simp only [List.mem_cons, List.not_mem_nil, or_false] at hf
-    rcases hf with rfl | rfl | rfl | rfl
-    · exact ⟨simple_of_decide _ (by decide), fun v hv => by injection hv with hv; subst hv; exact hv' _ t1⟩
-    · exact ⟨simple_of_decide _ (by decide), fun v hv => by injection hv with hv; subst hv; exact hv' _ t2⟩
-    · exact ⟨simple_of_decide _ (by decide), fun v hv => by injection hv with hv; subst hv; exact valueOK_concat⟩
-    · exact ⟨simple_of_decide _ (by decide), fun v hv => by injection hv with hv; subst hv; exact valueOK_adj⟩
-  · exact ⟨simple_of_decide _ (by decide), fun v hv => by
+    rcases hf with rfl | rfl | rfl | rfl | rfl
+    · exact ⟨kt _ (by decide), fun v hv => by injection hv with hv; subst hv; exact hv' _ t1⟩
+    · exact ⟨kt _ (by decide), fun v hv => by injection hv with hv; subst hv; exact hv' _ t2⟩
+    · exact ⟨kt _ (by decide), fun v hv => by injection hv with hv; subst hv; exact valueOK_concat⟩
+    · exact ⟨kt _ (by decide), fun v hv => by injection hv with hv; subst hv; exact valueOK_adj⟩
+    · exact ⟨kt _ (by decide), fun v hv => by injection hv with hv; subst hv; exact hv' _ t4⟩
+  · exact ⟨kt _ (by decide), fun v hv => by
       injection hv with hv; subst hv; exact strValOK_of_textOK (by decide) _ t4⟩
-  · exact ⟨simple_of_decide _ (by decide), fun v hv => by injection hv with hv; subst hv; exact strValOK_adj⟩
+  · exact ⟨kt _ (by decide), fun v hv => by injection hv with hv; subst hv; exact strValOK_adj⟩
   · show noStart asciiChars _ = true; decide
-  · refine ⟨by decide, by decide, by decide, by decide, by decide, simple_of_decide _ (by decide), ?_⟩
+  · refine ⟨by decide, by decide, by decide, by decide, by decide, kt _ (by decide), ?_⟩
     intro f hf
     change f ∈ [exF3] at hf
     simp only [List.mem_cons, List.not_mem_nil, or_false] at hf
     subst hf
-    exact ⟨simple_of_decide _ (by decide), fun v hv => by injection hv with hv; subst hv; exact hv' _ t3⟩
+    exact ⟨kt _ (by decide), fun v hv => by injection hv with hv; subst hv; exact hv' _ t3⟩
   · exact t1
   · exact t2
 
@@ -320,5 +424,25 @@ example : ∃ s L, parseDefault asciiChars s = .ok L ∧ L.length = 7 ∧ ∀ b 
 
 /-- `TextOK` is satisfiable: the nested-brace value of the example -/
 example : Reparse.endBS false "x{y{z}}".toList = false := by decide
+
+/-- non-vacuity of `content_preserved_grammar`: the document
+`@string{s = {x}}` NL `@a{k, t = {A} # {B}, u = "q", w = s}` - an @string, a concatenation, a quoted value and a
+reference that the default stack resolves - has a derivation `gDoc` that meets every hypothesis (`Doc.WF5`,
+canonical tokens, the text is the flattening of the tokens) for the model's ASCII table -/
+theorem gDoc_wf5 : Doc.WF5 asciiChars gDoc :=
+  ⟨gDoc_ok5.wf, gDoc_ok5.distinctFields, fun bj hbj => by
+    have := gDoc_ok5.blocks bj hbj
+    cases hb : bj.1 <;> rw [hb] at this <;> exact this, gDoc_ok5.entryKeys, gDoc_ok5.stringKeys⟩
+
+example : Doc.WF5 asciiChars gDoc ∧ Canon asciiChars false gDoc.toks ∧ '\n' :: gText = flatten gDoc.toks :=
+  ⟨gDoc_wf5, gDoc_canon, gDoc_text⟩
+
+example : ∃ rt, roundTrip asciiChars exFormat gText = .ok rt ∧
+    rt.lib2.map contentOf = rt.lib1.map contentOf ∧ rt.text2 = rt.text1 :=
+  content_preserved_grammar asciiChars exFormat gDoc gText printOK_ascii lowerOK_ascii ⟨by decide, by decide⟩ gDoc_wf5
+    gDoc_canon gDoc_text
+
+example : ∃ L, parseDefault asciiChars gText = .ok L ∧ (∀ b ∈ L, SideOK asciiChars b) ∧ Writable asciiChars L :=
+  parsed_grammar_sideOK printOK_ascii lowerOK_ascii gDoc gDoc_wf5 gDoc_canon gText gDoc_text
 
 end Bib.C05
